@@ -1,5 +1,6 @@
 import MlModel.Model.MergeMulti
 import MlModel.Properties.C16
+import MlModel.Lemmas.MergeMulti
 /-!
 # C16 — `merge_states` of a chain with SEVERAL aggregating stages over a one-shot stream of states
 
@@ -10,13 +11,6 @@ namespace MlModel.C16
 open MlModel.Sched
 
 variable {S C : Type} (merge : C → C → C) (empty : C) (proj : Nat → S → C)
-
-theorem mapM_ok_eq {α β : Type} (f : α → Except ErrKind β) (g : α → β) (hf : ∀ a, f a = .ok (g a)) :
-    ∀ l : List α, l.mapM f = .ok (l.map g)
-  | [] => rfl
-  | a :: l => by
-    rw [List.mapM_cons, hf a, mapM_ok_eq f g hf l]
-    rfl
 
 /-- **Every aggregating stage merges ALL states, whatever the number of stages, from ONE traversal.**
 For a chain with `k` aggregating stages and a one-shot stream holding the states `o.rest` (one dict per
@@ -32,7 +26,7 @@ theorem C16_merge_states_multi_stage (k : Nat) (o : OneShot S) (n : Nat) :
   simp only []
   split
   · rfl
-  · exact mapM_ok_eq _ _ (fun j => by rw [trMerge_eq]; simp) _
+  · exact Sched.mapM_ok_eq _ _ (fun j => by rw [trMerge_eq]; simp) _
 
 /-- hence: exactly `n` states -> one complete merged component per stage (`k` of them) -/
 theorem C16_merge_states_multi_stage_complete (k : Nat) (o : OneShot S) (n : Nat) (hn : o.rest.length = n) :
@@ -45,15 +39,5 @@ theorem C16_merge_states_multi_stage_complete (k : Nat) (o : OneShot S) (n : Nat
 /-- test / non-vacuity: two stages (sum of the first, sum of the second component), three shard states -/
 example : chMergeMulti (· + ·) 0 (fun j (p : Nat × Nat) => if j = 0 then p.1 else p.2) 2 ⟨[(1, 10), (2, 20), (3, 30)]⟩ 3
     = .ok [6, 60] := rfl
-
-/-- **Witness for the single-pass class (seeded change C16-m2).**  Handing the one-shot stream to the stage
-runners one after the other: the second aggregating stage finds the stream exhausted - with the strict count
-the fault-free merge raises `ValueError` ("got 0 states, needs 3"), without it the second stage's aggregate is
-silently empty. -/
-theorem single_pass_second_stage_starves_witness :
-    chMergeSinglePass (· + ·) 0 (fun j (p : Nat × Nat) => if j = 0 then p.1 else p.2) 2 ⟨[(1, 10), (2, 20), (3, 30)]⟩ 3
-      = .error .value ∧
-    chMergeSinglePass (· + ·) 0 (fun j (p : Nat × Nat) => if j = 0 then p.1 else p.2) 2 ⟨[(1, 10), (2, 20), (3, 30)]⟩ 0
-      = .ok [6, 0] := ⟨rfl, rfl⟩
 
 end MlModel.C16
